@@ -48,6 +48,8 @@ type Cfg struct {
 	ViaREST      bool     `json:"via_rest,omitempty"`      // management events go through controller/client -> controller/rest (api.go)
 	MaxReverts   int      `json:"max_reverts,omitempty"`   // volume reverts per path (0 = 1)
 	ViaRPC       bool     `json:"via_rpc,omitempty"`       // every backend's data path is the real rpc.Client -> loopback TCP -> rpc.Server -> node
+	RealAgent    bool     `json:"real_agent,omitempty"`    // file transfers are launched by jiva\'s real sync agent (process table, port allocator, exit codes); the ssync child is the harness binary
+	AgentPorts   int      `json:"agent_ports,omitempty"`   // size of each real agent\'s port range (default 100)
 	MaxRetries   int      `json:"max_retries,omitempty"`   // retry ticks of the registration loops per path (Boot/StepB)
 	RealMon      bool     `json:"real_mon,omitempty"`      // with ViaRPC: the real monitorPing goroutine watches every backend; the harness fires its ticker (PingOK/PingF) and cuts connections (ConnDrop)
 	UnmapAnytime bool     `json:"unmap_anytime,omitempty"` // UnB is also enabled while a replica is rebuilding
@@ -153,46 +155,51 @@ type cluster struct {
 	notes   []string
 
 	// model of what was acknowledged
-	nWrites        int
-	acked          map[int]bool // write id -> acknowledged
-	issued         map[int]bool
-	nSnaps         int
-	nAdds          int
-	nRestart       int
-	nRegs          int
-	nReads         int
-	nFaults        int
-	nDeletes       int
-	nResizes       int
-	nTicks         int
-	nReverts       int
-	nUnmaps        int
-	conns          []net.Conn       // rpc connections of this execution (ViaRPC)
-	boots          map[int]*task    // node -> its registration loop (sync.Task.AddReplica) under step control
-	actions        map[int][]string // node -> actions the controller has sent to it and its loop has not taken yet
-	nRetries       int
-	pendingPing    chan chan vtime.Time // set while a backend\'s real monitorPing goroutine is being started
-	failPing       map[int]bool         // node -> its next ping answer is an error (RealMon)
-	undone         map[int]bool         // write id -> undone by a volume revert to a snapshot taken before it
-	goodSnaps      []goodSnap           // volume snapshots that were reported successful
-	failFold       bool
-	killFold       bool        // the next coalesce: the sync agent's sfold child dies from a signal
-	failSpawn      bool        // the next coalesce: the sync agent cannot start the sfold child at all
-	spawnFailed    map[int]int // node -> 1 + polls of the process that never started
-	cleanerStuck   map[int]bool
-	agents         map[int]http.Handler // node -> router of jiva's REAL sync agent (used for coalesce requests)
-	failFiemap     bool                 // the next block-map rebuild of the task's replica: one extent query (FIEMAP) of the base file fails
-	restoreFiemap  func()
-	failXfer       bool // the next snapshot-file transfer of the sync agent dies half way (the sender exits non-zero)
-	pendingCleaner int
-	cleanerTick    map[int]chan time.Time
-	attachAt       map[int]int // be seq -> number of writes issued when it was attached
-	synced         map[int]bool
-	failedBE       map[int]bool  // be seq -> failed a call by script
-	lostProbes     map[int]int   // node -> number of upcoming liveness probes of that node that get lost although it is alive
-	regTruth       map[int]int64 // node -> revision it registered with, since it last left the volume (ground truth for C09)
-	opFailed       map[int]bool  // node -> its call failed by script during the current I/O event
-	opIO           bool          // the current event is a data-path operation
+	nWrites         int
+	acked           map[int]bool // write id -> acknowledged
+	issued          map[int]bool
+	nSnaps          int
+	nAdds           int
+	nRestart        int
+	nRegs           int
+	nReads          int
+	nFaults         int
+	nDeletes        int
+	nResizes        int
+	nTicks          int
+	nReverts        int
+	nUnmaps         int
+	conns           []net.Conn       // rpc connections of this execution (ViaRPC)
+	boots           map[int]*task    // node -> its registration loop (sync.Task.AddReplica) under step control
+	actions         map[int][]string // node -> actions the controller has sent to it and its loop has not taken yet
+	nRetries        int
+	pendingPing     chan chan vtime.Time // set while a backend\'s real monitorPing goroutine is being started
+	failPing        map[int]bool         // node -> its next ping answer is an error (RealMon)
+	undone          map[int]bool         // write id -> undone by a volume revert to a snapshot taken before it
+	goodSnaps       []goodSnap           // volume snapshots that were reported successful
+	failFold        bool
+	killFold        bool // the next coalesce: the sync agent's sfold child dies from a signal
+	killXfer        bool // the next snapshot-file transfer: the sender dies from a signal after the receiver sized the file (real agent only)
+	ssyncFaultArmed bool
+	agentPorts      []int          // ports of the receivers the real agents started in this execution
+	senderPort      map[string]int // "node/process id" of a sender -> the receiver port it talks to
+	finishing       map[int]bool   // ports whose transfer completed: the receiver there is ending
+	failSpawn       bool           // the next coalesce: the sync agent cannot start the sfold child at all
+	spawnFailed     map[int]int    // node -> 1 + polls of the process that never started
+	cleanerStuck    map[int]bool
+	agents          map[int]http.Handler // node -> router of jiva's REAL sync agent (used for coalesce requests)
+	failFiemap      bool                 // the next block-map rebuild of the task's replica: one extent query (FIEMAP) of the base file fails
+	restoreFiemap   func()
+	failXfer        bool // the next snapshot-file transfer of the sync agent dies half way (the sender exits non-zero)
+	pendingCleaner  int
+	cleanerTick     map[int]chan time.Time
+	attachAt        map[int]int // be seq -> number of writes issued when it was attached
+	synced          map[int]bool
+	failedBE        map[int]bool  // be seq -> failed a call by script
+	lostProbes      map[int]int   // node -> number of upcoming liveness probes of that node that get lost although it is alive
+	regTruth        map[int]int64 // node -> revision it registered with, since it last left the volume (ground truth for C09)
+	opFailed        map[int]bool  // node -> its call failed by script during the current I/O event
+	opIO            bool          // the current event is a data-path operation
 
 	pendingFailed  []int    // nodes that failed the last I/O: must be detached once the controller is quiescent
 	internalBefore []string // internal events that were pending when the current external event started
@@ -558,6 +565,7 @@ func gateName(req *http.Request) string {
 }
 
 func (cl *cluster) destroy() {
+	cl.stopReceivers()
 	for _, c := range cl.conns {
 		c.Close()
 	}
